@@ -2,6 +2,8 @@ import CogentModel.Model.AnnotDb
 import CogentModel.Spec.AnnotDb
 import CogentModel.Proofs.AnnotDb
 import CogentModel.Proofs.GffBlocksD
+import CogentModel.Model.AnnotDbRoundTrip
+import CogentModel.Proofs.AnnotDbRoundTrip
 /-! # C17 — annotation databases return exactly the matching records
 
 `matchPartial`, `matchWithin`, `matchStartOnly`, `matchStopOnly` are **generated** from the SQL
@@ -52,11 +54,17 @@ theorem clauses_ok : ClausesOk :=
   ⟨partial_iff_overlap, within_iff, fun s e a => (point_clause_iff s e a).1, fun s e a => (point_clause_iff s e a).2⟩
 
 /-- `get_features_matching` / `get_records_matching`, for every db class (any number of tables),
-every subset of the optional arguments and either `allow_partial`, returns exactly — in order —
-what the linear scan with the property's predicate selects. -/
+every subset of the optional arguments and either `allow_partial`, returns exactly the MULTISET of
+records that the linear scan with the property's predicate selects (`List.Perm`).
+
+Order is deliberately not claimed.  In the model the two lists are even equal
+(`query_is_filter_of` in `Proofs/AnnotDb.lean`: tables in `table_names` order, rows in insertion
+order), but that is an artefact of the model: the real `SELECT` has no `ORDER BY`, and once
+`make_indexes()` has run sqlite answers column conditions in index order (the correspondence counts
+a few dozen order differences per run and therefore compares multisets). -/
 theorem query_is_filter (db : Db) (q : Query) (hdb : ∀ r ∈ db.records, r.start < r.stop) (hq : WindowOk q) :
-    getMatching db q = linearScan db.records q :=
-  query_is_filter_of clauses_ok db q hdb hq
+    (getMatching db q).Perm (linearScan db.records q) := by
+  rw [query_is_filter_of clauses_ok db q hdb hq]
 
 example :
     let r1 := mkUserRec "s1" "gene" "a" (some "-") none [(8, 10), (5, 2)]
@@ -72,12 +80,14 @@ and `allow_partial=True`": zero-length rows and reversed / empty windows include
 bounds are given together with `allow_partial=True`. -/
 theorem query_is_filter_nonpartial (db : Db) (q : Query)
     (h : q.allowPartial = false ∨ q.start = none ∨ q.stop = none) :
-    getMatching db q = linearScan db.records q := by
-  unfold getMatching Db.records
-  show _ = List.filter _ _
-  rw [filter_flatMap]
-  simp only [selectTable_nonpartial clauses_ok _ q h]
-  rfl
+    (getMatching db q).Perm (linearScan db.records q) := by
+  have e : getMatching db q = linearScan db.records q := by
+    unfold getMatching Db.records
+    show _ = List.filter _ _
+    rw [filter_flatMap]
+    simp only [selectTable_nonpartial clauses_ok _ q h]
+    rfl
+  rw [e]
 
 -- a zero-length row, a reversed window: outside `query_is_filter`, inside this one
 example :
@@ -192,11 +202,13 @@ example :
     a.WF ∧ b.WF ∧ (match union a b with | .ok d => d.records == [r2, r1, r2, r1] | .error _ => false) = true := by
   decide
 
-/-- `subset(**query)` is the linear scan, for every query (any subset of column conditions, any
-window mode, either `allow_partial`) and keeps the db class. -/
+/-- `subset(**query)` holds exactly the multiset of records the linear scan selects, for every query
+(any subset of column conditions, any window mode, either `allow_partial`) and keeps the db class.
+(Multiset, not order: see `query_is_filter`.) -/
 theorem subset_filter (db : Db) (q : Query) (hdb : ∀ r ∈ db.records, r.start < r.stop) (hq : WindowOk q) :
-    ∃ d, subset db q = .ok d ∧ d.kind = db.kind ∧ d.records = linearScan db.records q :=
-  subset_filter_aux db q hdb (fun t ht => selectTable_spec clauses_ok t q ht hq)
+    ∃ d, subset db q = .ok d ∧ d.kind = db.kind ∧ d.records.Perm (linearScan db.records q) := by
+  obtain ⟨d, h1, h2, h3⟩ := subset_filter_aux db q hdb (fun t ht => selectTable_spec clauses_ok t q ht hq)
+  exact ⟨d, h1, h2, by rw [h3]⟩
 
 example :
     let r1 := mkUserRec "s1" "gene" "a" (some "-") none [(2, 5)]
@@ -209,17 +221,20 @@ example :
 /-- (audit) … and without side conditions outside the "both bounds + `allow_partial`" mode. -/
 theorem subset_filter_nonpartial (db : Db) (q : Query)
     (h : q.allowPartial = false ∨ q.start = none ∨ q.stop = none) :
-    ∃ d, subset db q = .ok d ∧ d.kind = db.kind ∧ d.records = linearScan db.records q := by
-  unfold subset
-  split
-  · rename_i hl
-    refine ⟨_, rfl, rfl, ?_⟩
-    rw [empty_records, records_nil_of_len hl]; rfl
-  · refine ⟨_, rfl, rfl, ?_⟩
-    unfold Db.records linearScan
-    rw [filter_flatMap]
-    simp only [List.flatMap_map, selectTable_nonpartial clauses_ok _ q h]
-    rfl
+    ∃ d, subset db q = .ok d ∧ d.kind = db.kind ∧ d.records.Perm (linearScan db.records q) := by
+  have e : ∃ d, subset db q = .ok d ∧ d.kind = db.kind ∧ d.records = linearScan db.records q := by
+    unfold subset
+    split
+    · rename_i hl
+      refine ⟨_, rfl, rfl, ?_⟩
+      rw [empty_records, records_nil_of_len hl]; rfl
+    · refine ⟨_, rfl, rfl, ?_⟩
+      unfold Db.records linearScan
+      rw [filter_flatMap]
+      simp only [List.flatMap_map, selectTable_nonpartial clauses_ok _ q h]
+      rfl
+  obtain ⟨d, h1, h2, h3⟩ := e
+  exact ⟨d, h1, h2, by rw [h3]⟩
 
 example :
     let z := mkUserRec "s1" "gene" "z" none none [(9, 9)]
@@ -318,5 +333,64 @@ theorem gff_blocks_duplicate_row_counter :
     (loadGffBlocks [[⟨some "c1", "s1", "CDS", "-", "ID=c1", 3, 5⟩, ⟨some "c1", "s1", "CDS", "-", "ID=c1", 3, 5⟩]]).map (·.spans)
       = [[(2, 5), (2, 5)]] := by
   decide
+
+/-! ## Serialisation round trips (record-list model `Model/AnnotDbRoundTrip.lean`)
+
+`to_rich_dict` keeps the non-NULL columns of every row; `from_dict` OPENS `init_args["source"]` and INSERTS
+the records into it; `__deepcopy__` / pickle REPLACE the new connection's content with the byte image;
+`write` + reopening loads the backup.  sqlite's `serialize`/`deserialize`/`backup` are trusted to carry
+row lists unchanged; what the theorems are about is the dict encoding of a row and which db the rows end
+up in. -/
+
+/-- One row survives `to_rich_dict` → `from_dict` unchanged, whichever of its optional columns are NULL. -/
+theorem richdict_row_roundtrip (r : Rec) : richToRec (recToRich r) = r :=
+  richToRec_recToRich r
+
+example : richToRec (recToRich (mkUserRec "s1" "gene" "a" none (some "note=zq") [(8, 10), (5, 2)]))
+    = mkUserRec "s1" "gene" "a" none (some "note=zq") [(8, 10), (5, 2)] := by decide
+
+/-- `from_dict(to_rich_dict())` and `deserialise_object(to_json())` of an IN-MEMORY db of any of the
+three classes: same class, well formed, same multiset of records. -/
+theorem richdict_roundtrip_perm (db : Db) (h : db.WF) :
+    (jsonRoundTrip db false).WF ∧ (jsonRoundTrip db false).kind = db.kind ∧
+      (jsonRoundTrip db false).records.Perm db.records :=
+  jsonRoundTrip_memory_perm db h
+
+theorem to_json_roundtrip_perm (db : Db) (h : db.WF) : (jsonRoundTrip db false).records.Perm db.records :=
+  (jsonRoundTrip_memory_perm db h).2.2
+
+example :
+    let r1 := mkUserRec "s1" "gene" "a" (some "-") none [(2, 5)]
+    let r2 := mkUserRec "s2" "cds" "b" none (some "zq") [(12, 15)]
+    let db : Db := { kind := .gff, tables := [("gff", [r2]), ("user", [r1, r2])] }
+    db.WF ∧ (jsonRoundTrip db false).records = [r2, r1, r2] := by decide
+
+/- FULL STATEMENT (not proved): the same for a FILE-BACKED db (`source=<file>`).  False of the mirrored
+   model and of the code (open finding C17-json-roundtrip-of-file-backed-db-duplicates): `from_dict`
+   re-opens the source file and inserts every record into it again. -/
+theorem richdict_roundtrip_file_backed_counter (db : Db) (h : db.WF) :
+    (jsonRoundTrip db true).records.Perm (db.records ++ db.records) :=
+  jsonRoundTrip_file_doubles db h
+
+/-- `copy.deepcopy(db)` (and `copy`, which the classes do not define separately): same records, for an
+in-memory and for a file-backed source — the byte image replaces what the new connection opened. -/
+theorem deepcopy_perm (db : Db) (fileBacked : Bool) :
+    (deepcopyDb db fileBacked).kind = db.kind ∧ (deepcopyDb db fileBacked).records.Perm db.records :=
+  ⟨rfl, List.Perm.refl _⟩
+
+/-- pickling (`__getstate__` = byte image + source, `__setstate__` = open source, deserialize) is the
+same operation. -/
+theorem pickle_perm (db : Db) (fileBacked : Bool) : (deepcopyDb db fileBacked).records.Perm db.records :=
+  List.Perm.refl _
+
+/-- `write(path)` to a new file and `cls(source=path)`: same records. -/
+theorem write_load_perm (db : Db) : (writeLoad db).kind = db.kind ∧ (writeLoad db).records.Perm db.records :=
+  ⟨rfl, List.Perm.refl _⟩
+
+example :
+    let r1 := mkUserRec "s1" "gene" "a" (some "-") none [(2, 5)]
+    let db : Db := { kind := .genbank, tables := [("gb", [r1]), ("user", [r1])] }
+    (deepcopyDb db true).records = [r1, r1] ∧ (writeLoad db).records = [r1, r1] ∧
+      (jsonRoundTrip db true).records = [r1, r1, r1, r1] := by decide
 
 end CogentModel.C17
